@@ -248,10 +248,26 @@ func (in *Interp) solverUnknown(what string) {
 // ---- obligations
 
 func (in *Interp) model() map[string]uint64 {
-	vals := in.S.Values(in.inputs)
-	m := map[string]uint64{}
+	var scalars []*Term
 	for _, t := range in.inputs {
+		if t.sort.K != SArr {
+			scalars = append(scalars, t)
+		}
+	}
+	vals := in.S.Values(scalars)
+	m := map[string]uint64{}
+	for _, t := range scalars {
 		m[t.name] = vals[t]
+	}
+	if len(in.probes) > 0 {
+		ts := make([]*Term, len(in.probes))
+		for i, p := range in.probes {
+			ts[i] = p.t
+		}
+		pv := in.S.Values(ts)
+		for _, p := range in.probes {
+			m[p.name] = pv[p.t]
+		}
 	}
 	return m
 }
